@@ -8,8 +8,16 @@
 
   Full statement (goal): `∀ ops, (ops.foldl step init).inv` for the whole mutating API, and
   `isRemoved` monotone along every history.
+
+  Status: proved for every call except `replace` (proved unless the replaced node sits between
+  two text nodes in strict mode) and `clone_node` of an element (proved under the guard
+  `cloneTopOK`); `isRemoved` monotone for every call without exception.  All preservation
+  theorems hold for arbitrary numbers as handle arguments — no liveness hypothesis is needed,
+  because a call on a handle that is not live is refused by the argument checks or is the
+  identity; so "non-live arguments" are in scope, not excluded.  (What the Rust does with a
+  stale `NodeId` is below this model: handles here are creation-order numbers.)
 -/
-import XotModel.Lemmas.ForestBasic
+import XotModel.Lemmas.FinvClone
 
 namespace XotModel.Props
 open XotModel
@@ -38,5 +46,282 @@ theorem C04_setValue_handles (f : Forest) (h : Nat) (v : Value) :
 
 /-- Non-vacuity: a concrete non-trivial forest satisfying the invariant. -/
 example : ({ roots := [.node 0 .document [.node 1 (.element 2) [.node 2 (.namespace 0 2) [], .node 3 (.attribute 3 ['v']) [], .node 4 (.text ['x']) []]]], next := 5 } : Forest).inv = true := by decide
+
+/-! ### Handle bookkeeping of the primitives
+
+Arguments that are not live handles are outside the scope of these statements (hypothesis
+`isLive` / `get? = some`); for such arguments the primitives are the identity or drop the tree,
+see the definitions. -/
+
+/-- `new_node` adds exactly the fresh handle `f.next`. -/
+theorem C04_newNode_handles (f : Forest) (v : Value) :
+    (f.newNode v).1.allHandles = f.allHandles ++ [f.next] ∧ (f.newNode v).2 = f.next ∧
+    (f.newNode v).1.next = f.next + 1 := ⟨Forest.allHandles_newNode f v, rfl, rfl⟩
+
+/-- `cut` (indextree `detach`): the remaining handles and the handles of the cut subtree
+    partition the old handles. -/
+theorem C04_cut_handles (f f' : Forest) (h : Nat) (t : HTree) (nd : f.allHandles.Nodup)
+    (hc : f.cut h = (f', some t)) : (f'.allHandles ++ HTree.handles t).Perm f.allHandles :=
+  Forest.cut_perm nd hc
+
+/-- `remove_subtree`. -/
+theorem C04_dropSubtree_handles (f : Forest) (h : Nat) (t : HTree) (nd : f.allHandles.Nodup)
+    (hg : f.get? h = some t) : ((f.dropSubtree h).allHandles ++ HTree.handles t).Perm f.allHandles :=
+  Forest.dropSubtree_perm nd hg
+
+/-- indextree `remove`: exactly the handle `h` disappears, its children stay. -/
+theorem C04_spliceOut_handles (f : Forest) (h : Nat) (nd : f.allHandles.Nodup) (hl : f.isLive h = true) :
+    ((f.spliceOut h).allHandles ++ [h]).Perm f.allHandles := Forest.spliceOut_perm nd hl
+
+/-- Raw insertion of a tree next to a live non-root node / under a live node: the new handles
+    are the old ones and the tree's. -/
+theorem C04_placeAfter_handles (f : Forest) (ref : Nat) (t : HTree) (nd : f.allHandles.Nodup)
+    (hl : f.isLive ref = true) (hr : f.isRoot ref = false) :
+    (f.placeAfter ref t).allHandles.Perm (f.allHandles ++ HTree.handles t) :=
+  Forest.placeAfter_perm t nd hl hr
+
+theorem C04_placeBefore_handles (f : Forest) (ref : Nat) (t : HTree) (nd : f.allHandles.Nodup)
+    (hl : f.isLive ref = true) (hr : f.isRoot ref = false) :
+    (f.placeBefore ref t).allHandles.Perm (f.allHandles ++ HTree.handles t) :=
+  Forest.placeBefore_perm t nd hl hr
+
+theorem C04_placeLast_handles (f : Forest) (p : Nat) (t : HTree) (nd : f.allHandles.Nodup)
+    (hl : f.isLive p = true) : (f.placeLast p t).allHandles.Perm (f.allHandles ++ HTree.handles t) :=
+  Forest.placeLast_perm t nd hl
+
+theorem C04_placeFirst_handles (f : Forest) (p : Nat) (t : HTree) (nd : f.allHandles.Nodup)
+    (hl : f.isLive p = true) : (f.placeFirst p t).allHandles.Perm (f.allHandles ++ HTree.handles t) :=
+  Forest.placeFirst_perm t nd hl
+
+/-! ### Preservation of the invariant, operation by operation
+
+Every statement below holds for ALL forests satisfying the invariant and ALL arguments (live
+or not: a call on a handle that is not live is refused by the argument checks or is the
+identity), and for every outcome of the call (`ok`, `err`, `panic`). -/
+
+/-- Node creation. -/
+theorem C04_newNode (f : Forest) (v : Value) (h : f.Inv) : (f.newNode v).1.Inv := Forest.newNode_inv h v
+
+theorem C04_newDocument (f : Forest) (h : f.Inv) : f.newDocument.1.Inv := Forest.newNode_inv h _
+theorem C04_newElement (f : Forest) (n : Nat) (h : f.Inv) : (f.newElement n).1.Inv := Forest.newNode_inv h _
+theorem C04_newText (f : Forest) (s : Str) (h : f.Inv) : (f.newText s).1.Inv := Forest.newNode_inv h _
+theorem C04_newComment (f : Forest) (s : Str) (h : f.Inv) : (f.newComment s).1.Inv := Forest.newNode_inv h _
+theorem C04_newPi (f : Forest) (t : Nat) (d : Option Str) (h : f.Inv) : (f.newPi t d).1.Inv :=
+  Forest.newNode_inv h _
+theorem C04_newAttributeNode (f : Forest) (n : Nat) (v : Str) (h : f.Inv) :
+    (f.newAttributeNode n v).1.Inv := Forest.newNode_inv h _
+theorem C04_newNamespaceNode (f : Forest) (p n : Nat) (h : f.Inv) :
+    (f.newNamespaceNode p n).1.Inv := Forest.newNode_inv h _
+
+/-- The text-consolidation helpers of manipulation.rs keep the invariant for all arguments. -/
+theorem C04_removeConsolidate (f : Forest) (prev next : Option Nat) (h : f.Inv) :
+    (f.removeConsolidate prev next).1.Inv := Forest.removeConsolidate_inv h prev next
+
+theorem C04_addConsolidate (f : Forest) (node : Nat) (prev next : Option Nat) (h : f.Inv) :
+    (f.addConsolidate node prev next).1.Inv := Forest.addConsolidate_inv h node prev next
+
+/-- The moves. -/
+theorem C04_append (f : Forest) (parent child : Nat) (h : f.Inv) : (f.append parent child).1.Inv :=
+  Forest.append_inv h parent child
+
+theorem C04_prepend (f : Forest) (parent child : Nat) (h : f.Inv) : (f.prepend parent child).1.Inv :=
+  Forest.prepend_inv h parent child
+
+theorem C04_insertAfter (f : Forest) (ref new : Nat) (h : f.Inv) : (f.insertAfter ref new).1.Inv :=
+  Forest.insertAfter_inv h ref new
+
+theorem C04_insertBefore (f : Forest) (ref new : Nat) (h : f.Inv) : (f.insertBefore ref new).1.Inv :=
+  Forest.insertBefore_inv h ref new
+
+theorem C04_detach (f : Forest) (node : Nat) (h : f.Inv) : (f.detach node).1.Inv :=
+  Forest.detach_inv h node
+
+theorem C04_remove (f : Forest) (node : Nat) (h : f.Inv) : (f.remove node).1.Inv :=
+  Forest.remove_inv h node
+
+/-- Setters: the kind of the value does not change, so neither does validity; in strict mode
+    `setText` keeps "no adjacent text" because text-ness does not change. -/
+theorem C04_setElementName (f : Forest) (node name : Nat) (h : f.Inv) : (f.setElementName node name).1.Inv :=
+  Forest.setElementName_inv h node name
+
+theorem C04_setText (f : Forest) (node : Nat) (s : Str) (h : f.Inv) : (f.setText node s).1.Inv :=
+  Forest.setText_inv h node s
+
+theorem C04_setComment (f : Forest) (node : Nat) (s : Str) (h : f.Inv) : (f.setComment node s).1.Inv :=
+  Forest.setComment_inv h node s
+
+theorem C04_setPiData (f : Forest) (node : Nat) (d : Option Str) (h : f.Inv) : (f.setPiData node d).1.Inv :=
+  Forest.setPiData_inv h node d
+
+/-- A value update that stays within the kind of the old value. -/
+theorem C04_setValue (f : Forest) (n : Nat) (v v' : Value) (h : f.Inv) (hv : f.value? n = some v)
+    (hk : SameKind v v') (ha : ∀ x, kidAllowed v' x = kidAllowed v x) : (f.setValue n v').Inv :=
+  Forest.setValue_inv h hv hk ha
+
+/-- Map removal and what is built from `remove`. -/
+theorem C04_mapRemove (f : Forest) (k : Forest.MapKind) (parent key : Nat) (h : f.Inv) :
+    (f.mapRemove k parent key).1.Inv := Forest.mapRemove_inv h k parent key
+
+theorem C04_mapClear (f : Forest) (k : Forest.MapKind) (parent : Nat) (h : f.Inv) :
+    (f.mapClear k parent).1.Inv := Forest.mapClear_inv h k parent
+
+theorem C04_removeInsignificantWhitespace (f : Forest) (node : Nat) (h : f.Inv) :
+    (f.removeInsignificantWhitespace node).Inv := Forest.removeInsignificantWhitespace_inv h node
+
+/-- Non-vacuity of the move theorems: an invariant forest in strict mode on which `append` has to
+    merge text on both sides (`<a>x<b/>y</a>`, `<c>z</c>`; append the element `b` to `c`, then the
+    text `y`+`x` merge), checked by evaluation. -/
+example : let f : Forest := { roots := [.node 0 (.element 1) [.node 1 (.text ['x']) [], .node 2 (.element 2) [], .node 3 (.text ['y']) []], .node 4 (.element 3) [.node 5 (.text ['z']) []]], next := 6 }
+    f.inv = true ∧ (f.append 4 2).2 = .ok ∧ (f.append 4 2).1.inv = true ∧
+    (f.append 4 1).2 = .ok ∧ (f.append 4 1).1.inv = true ∧ (f.insertAfter 5 3).1.inv = true := by decide
+
+/-! ### Node maps, `any_append`, `text_content_mut` -/
+
+/-- `MutableNodeMap::insert(key, value)`.  The entry value must be of the map's kind — the Rust API
+    builds it from the key and the value, so it always is; the model's function takes a raw
+    `Value`, and for a value of another kind the statement is false (witness below). -/
+theorem C04_mapInsert (f : Forest) (k : Forest.MapKind) (parent : Nat) (entry : Value) (h : f.Inv)
+    (hm : k.matches entry = true) : (f.mapInsert k parent entry).1.Inv :=
+  Forest.mapInsert_inv h k parent entry hm
+
+/-- `MutableNodeMap::insert_node` (crate-private; the public entry points `append_attribute_node`,
+    `append_namespace_node`, `any_append` check that the parent is an element first). -/
+theorem C04_mapInsertNode (f : Forest) (k : Forest.MapKind) (parent node : Nat) (h : f.Inv)
+    (he : f.isElement parent = true) : (f.mapInsertNode k parent node).1.Inv :=
+  Forest.mapInsertNode_inv h k node he
+
+theorem C04_appendEntryNode (f : Forest) (k : Forest.MapKind) (parent child : Nat) (h : f.Inv) :
+    (f.appendEntryNode k parent child).1.Inv := Forest.appendEntryNode_inv h k parent child
+
+theorem C04_anyAppend (f : Forest) (parent child : Nat) (h : f.Inv) : (f.anyAppend parent child).1.Inv :=
+  Forest.anyAppend_inv h parent child
+
+theorem C04_textContentSet (f : Forest) (node : Nat) (s : Str) (h : f.Inv) :
+    (f.textContentSet node s).1.Inv := Forest.textContentSet_inv h node s
+
+/-- Outside the API the two guarded statements above are false of the model: a document value
+    inserted as an "attribute", and `insert_node` under a text node. -/
+example : let f : Forest := { roots := [.node 0 (.element 1) [], .node 1 (.text ['x']) [], .node 2 (.attribute 3 ['v']) []], next := 3 }
+    f.inv = true ∧ (f.mapInsert .attributes 0 .document).1.inv = false ∧
+    (f.mapInsertNode .attributes 1 2).1.inv = false := by decide
+
+/-! ### Handles are never re-used: `is_removed` is monotone
+
+`Forest.Le f f'`: `next` has not decreased and every handle of `f'` is a handle of `f` or at least
+`f.next`.  It holds for every call of the model — including `replace`, `element_wrap`,
+`element_unwrap`, `clone_node` — for all forests and all arguments, without any invariant. -/
+
+theorem C04_step_le (f : Forest) (o : Op) : Forest.Le f (f.step o) := Forest.le_step f o
+
+/-- A removed handle stays removed by any single call … -/
+theorem C04_isRemoved_monotone (f : Forest) (o : Op) (h : Nat) (hr : f.isRemoved h = true) :
+    (f.step o).isRemoved h = true := Forest.isRemoved_mono (Forest.le_step f o) hr
+
+/-- … and along every history. -/
+theorem C04_isRemoved_history (f : Forest) (ops : List Op) (h : Nat) (hr : f.isRemoved h = true) :
+    (f.run ops).isRemoved h = true := Forest.isRemoved_mono (Forest.le_run f ops) hr
+
+/-- A handle handed out by a creation call is fresh: it was neither live nor removed before. -/
+theorem C04_fresh_handle (f : Forest) (v : Value) (hi : f.Inv) :
+    f.isLive (f.newNode v).2 = false ∧ f.isRemoved (f.newNode v).2 = false := by
+  constructor
+  · cases hl : f.isLive (f.newNode v).2 with
+    | false => rfl
+    | true => exact absurd (hi.below _ (Forest.mem_allHandles_of_isLive hl)) (Nat.lt_irrefl _)
+  · simp [Forest.isRemoved, Forest.newNode]
+
+/-! ### Histories -/
+
+/-- One step: every call in `Op.core` (everything except `replace` and `clone_node`) preserves the
+    invariant, whatever its arguments and outcome. -/
+theorem C04_step (f : Forest) (o : Op) (h : f.Inv) (hc : o.core = true) : (f.step o).Inv :=
+  Forest.step_inv h o hc
+
+/-- The handle part of one step: handles stay distinct and below `next`. -/
+theorem C04_handles_step (f : Forest) (o : Op) (h : f.Inv) (hc : o.core = true) :
+    (f.step o).allHandles.Nodup ∧ ∀ x ∈ (f.step o).allHandles, x < (f.step o).next :=
+  ⟨(Forest.step_inv h o hc).nodup, (Forest.step_inv h o hc).below⟩
+
+/-- Every forest reachable from the empty store by calls in `Op.core`, with arbitrary arguments
+    (live, removed, or never created), satisfies the invariant. -/
+theorem C04_reach (ops : List Op) (hc : ∀ o ∈ ops, o.core = true) : (Forest.init.run ops).Inv :=
+  Forest.run_inv ((Forest.inv_iff _).mp C04_init) ops hc
+
+theorem C04_reach_bool (ops : List Op) (hc : ∀ o ∈ ops, o.core = true) : (Forest.init.run ops).inv = true :=
+  (Forest.inv_iff _).mpr (C04_reach ops hc)
+
+/-- Non-vacuity: a history that creates, moves, merges text, removes, and calls on a removed
+    handle; evaluated. -/
+example : let ops : List Op := [.newElement 1, .newText ['x'], .newElement 2, .newText ['y'],
+      .append 0 1, .append 0 2, .append 0 3, .attrInsert 0 7 ['v'], .remove 2, .append 0 2, .setText 1 ['z']]
+    (∀ o ∈ ops, o.core = true) ∧ (Forest.init.run ops).inv = true ∧
+    (Forest.init.run ops).isRemoved 2 = true ∧ (Forest.init.run ops).isRemoved 3 = true ∧
+    (Forest.init.run ops).allHandles = [0, 4, 1] := by decide
+
+/-! ### `replace`, `element_wrap`, `element_unwrap`, `clone_node`
+
+These four take a node out *without* consolidating its former neighbours (`remove_subtree`,
+raw `detach`, indextree `remove`) and repair the text adjacency in a later step, so their
+intermediate states do not satisfy the invariant in strict mode.  `element_wrap` and
+`element_unwrap` are proved in full.  `C04_replaceStatement` and `C04_cloneNodeStatement` are NOT
+proved; proved for `replace` is the part where no such intermediate defect arises
+(`Forest.textGap = false`: in particular whenever consolidation has ever been off), for
+`clone_node` its replay loop and the non-element cases, and the handle part for all cases
+(`C04_step_le` above). -/
+
+def C04_replaceStatement : Prop := ∀ (f : Forest) (a b : Nat), f.Inv → (f.replace a b).1.Inv
+def C04_elementWrapStatement : Prop := ∀ (f : Forest) (n name : Nat), f.Inv → (f.elementWrap n name).1.Inv
+def C04_elementUnwrapStatement : Prop := ∀ (f : Forest) (n : Nat), f.Inv → (f.elementUnwrap n).1.Inv
+def C04_cloneNodeStatement : Prop := ∀ (f : Forest) (n : Nat), f.Inv → (f.cloneNode n).1.Inv
+
+/-- `replace` when the replaced node does not sit between two text nodes in strict mode. -/
+theorem C04_replace_partial (f : Forest) (a b : Nat) (h : f.Inv) (hg : f.textGap a = false) :
+    (f.replace a b).1.Inv := Forest.replace_inv_of_noGap h a b hg
+
+/-- `element_wrap`: full statement (the gap case by evaluating its steps on the explicit forest). -/
+theorem C04_elementWrap (f : Forest) (node name : Nat) (h : f.Inv) : (f.elementWrap node name).1.Inv :=
+  Forest.elementWrap_inv h node name
+
+theorem C04_elementWrapStatement_holds : C04_elementWrapStatement := fun f n name h => C04_elementWrap f n name h
+
+/-- The guard is vacuous once consolidation has ever been off. -/
+theorem C04_textGap_off (f : Forest) (a : Nat) (h : f.everOff = true) : f.textGap a = false := by
+  unfold Forest.textGap; cases f.ctx? a <;> simp [h]
+
+/-- `element_unwrap`: full statement (`remove_element` evaluated on the explicit forest, then the
+    two consolidations at the seams). -/
+theorem C04_elementUnwrap (f : Forest) (node : Nat) (h : f.Inv) : (f.elementUnwrap node).1.Inv :=
+  Forest.elementUnwrap_inv h node
+
+theorem C04_elementUnwrapStatement_holds : C04_elementUnwrapStatement := fun f n h => C04_elementUnwrap f n h
+
+/-- The replay loop of `clone_node` (`new_node` + `any_append` per source node) preserves the
+    invariant; `clone_node` of a document or of a leaf node does; for an element the state before
+    the final indextree `remove` of the temporary top does. -/
+theorem C04_cloneInto (f f' : Forest) (current : Nat) (t : HTree) (h : f.Inv)
+    (hc : Forest.cloneInto f current t = some f') : f'.Inv := Forest.cloneInto_inv current t f f' h hc
+
+theorem C04_cloneKids (f f' : Forest) (current : Nat) (ks : List HTree) (h : f.Inv)
+    (hc : Forest.cloneKids f current ks = some f') : f'.Inv := Forest.cloneKids_inv current ks f f' h hc
+
+theorem C04_cloneNode_partial (f : Forest) (node : Nat) (h : f.Inv) (hne : f.isElement node = false) :
+    (f.cloneNode node).1.Inv := Forest.cloneNode_inv_of_not_element h node hne
+
+/-- `clone_node` of an element, under the decidable guard `Forest.cloneTopOK`: after the replay
+    the temporary top element is still parentless and has at most one child, which is what the
+    final indextree `remove` of the top needs.  That the guard always holds is not proved. -/
+theorem C04_cloneNode_guarded (f : Forest) (node : Nat) (h : f.Inv) (hok : f.cloneTopOK node = true) :
+    (f.cloneNode node).1.Inv := Forest.cloneNode_inv_of_topOK h node hok
+
+/-- Non-vacuity: a strict forest with a gap (`<a>x<b/>y</a>`, `b` between two texts) and one
+    without; the unproved region is not empty and the model keeps the invariant there on these
+    instances (evaluation, not proof). -/
+def gapForest : Forest := { roots := [.node 0 (.element 1) [.node 1 (.text ['x']) [], .node 2 (.element 2) [], .node 3 (.text ['y']) []], .node 4 (.text ['z']) [], .node 5 (.element 3) []], next := 6 }
+example : gapForest.inv = true ∧ gapForest.textGap 2 = true ∧ gapForest.textGap 1 = false := by decide
+example : (gapForest.replace 2 4).1.inv = true := by decide
+example : (gapForest.replace 2 5).1.inv = true := by decide
+example : (gapForest.replace 1 5).1.inv = true := by decide
+example : (gapForest.elementWrap 2 9).1.inv = true := by decide
+example : gapForest.cloneTopOK 0 = true := by decide
 
 end XotModel.Props
